@@ -696,7 +696,7 @@ void scenario_fit(ctx_t& c)
         simrt_set_cores(ncores);
         // (gradient boosting also sees features at extreme magnitudes - subnormal numbers, physical units; linear models stay
         // well conditioned, see the tolerance note below)
-        const bool extreme = wr.coin(0.3) && which >= 4;
+        const bool extreme = wr.coin(0.5) && which >= 4;
         auto       d       = make_data(wr, 1, npool, 30, 60, false, 0.0, target_scale, extreme);
         const auto samples = arange(0, d.dataset->samples());
         const auto params  = fast_params(wr, folds, true);
@@ -907,7 +907,7 @@ void scenario_fit(ctx_t& c)
 
 void run(ctx_t& c)
 {
-    const auto scenario = c.knob("scenario", c.wl.pick<int64_t>({0, 0, 0, 1, 2, 2, 2, 3, 3, 3, 4}));
+    const auto scenario = c.knob("scenario", c.wl.pick<int64_t>({0, 0, 0, 1, 2, 2, 2, 3, 3, 3, 4, 4}));
     c.begin_sim(static_cast<int>(c.knob("max_cores", 16)));
     switch (scenario)
     {
